@@ -15,6 +15,11 @@
 //!   outside = every path that is not the destination or below it and was created / modified / removed;
 //!   listing = every path at or below the destination after the run, sorted by path bytes, `,`-separated:
 //!             `<hex path>/d/<perm>/-` | `<hex path>/f/<perm>/<fnv64 of content>` | `<hex path>/l/-/<hex target>` | `<hex path>/o/<perm>/-`
+//!
+//! op `extractmem12 <spec> <package> <archive|-> <dest> <jail> [via=…]`: the same, but `extract` is called on the UN-REPARSED
+//! `Package` value `PackageBuilder::build()` returns for `<spec>` = `<comp>;<hex dest>:<octal mode>:<hex content|->:<hex link|->;…`
+//! (never written, never parsed). `<package>` = the bytes that value writes (checked: `mem-bytes-differ` otherwise); the driver
+//! works on them ("same as parse").
 use crate::common::*;
 use crate::pkggen::*;
 use std::collections::BTreeMap;
@@ -240,6 +245,65 @@ fn observe(pkg_bytes: &[u8], dest: &[u8], jail: &[(Vec<u8>, JEnt)], via: &str) -
         Ok(p) => p,
         Err(_) => return "parse-err".into(),
     };
+    observe_pkg(&pkg, dest, jail, via)
+}
+
+/// `<comp>;<hex dest>:<octal mode>:<hex content|->:<hex link|->;…`
+pub fn mem_spec(files: &[BFile], comp: &str) -> String {
+    let mut s = comp.to_string();
+    for f in files {
+        s.push_str(&format!(";{}:{:o}:{}:{}", hx(f.dest.as_bytes()), f.mode, hx(&f.content), hx(f.link.as_bytes())));
+    }
+    s
+}
+
+fn comp_of(name: &str) -> Option<rpm::CompressionType> {
+    Some(match name {
+        "none" => rpm::CompressionType::None,
+        "gzip" => rpm::CompressionType::Gzip,
+        "zstd" => rpm::CompressionType::Zstd,
+        "xz" => rpm::CompressionType::Xz,
+        "bzip2" => rpm::CompressionType::Bzip2,
+        _ => return None,
+    })
+}
+
+fn parse_mem_spec(spec: &str) -> Option<(Vec<BFile>, rpm::CompressionType)> {
+    let mut it = spec.split(';');
+    let comp = comp_of(it.next()?)?;
+    let mut files = Vec::new();
+    for t in it {
+        let p: Vec<&str> = t.split(':').collect();
+        if p.len() != 4 { return None; }
+        files.push(BFile {
+            dest: String::from_utf8(unhx(p[0])).ok()?,
+            mode: u16::from_str_radix(p[1], 8).ok()?,
+            content: unhx(p[2]),
+            link: String::from_utf8(unhx(p[3])).ok()?,
+        });
+    }
+    Some((files, comp))
+}
+
+/// the un-reparsed value: built here from the spec, extracted as it is
+fn observe_mem(spec: &str, pkg_bytes: &[u8], dest: &[u8], jail: &[(Vec<u8>, JEnt)], via: &str) -> String {
+    let (files, comp) = match parse_mem_spec(spec) {
+        Some(x) => x,
+        None => return "bad-request".into(),
+    };
+    let mut src = SrcDir::new_tagged("m");
+    let pkg = match build_value(&mut src, &files, comp) {
+        Some(p) => p,
+        None => return "build-err".into(),
+    };
+    let mut w = Vec::new();
+    if pkg.write(&mut w).is_err() || w != pkg_bytes {
+        return "mem-bytes-differ".into();
+    }
+    observe_pkg(&pkg, dest, jail, via)
+}
+
+fn observe_pkg(pkg: &rpm::Package, dest: &[u8], jail: &[(Vec<u8>, JEnt)], via: &str) -> String {
     if !dest.starts_with(b"/") {
         return "bad-request".into();
     }
@@ -248,7 +312,7 @@ fn observe(pkg_bytes: &[u8], dest: &[u8], jail: &[(Vec<u8>, JEnt)], via: &str) -
         Err(_) => return "jail-err".into(),
     };
     let before = snapshot(&root);
-    let out = extract_in_jail(&pkg, &root, dest, via);
+    let out = extract_in_jail(pkg, &root, dest, via);
     let after = snapshot(&root);
     // restore permissions so that removal cannot fail, then remove the jail
     for (p, e) in &after {
@@ -278,6 +342,23 @@ pub fn eval(op: &str, a: &[&str]) -> Option<String> {
                 None => return Some("bad-request".into()),
             };
             Some(observe(&arg_bytes(a[0]), &unhx(a[2]), &jail, via))
+        }
+        "extractmem12" => {
+            if a.len() != 5 && a.len() != 6 {
+                return Some("bad-request".into());
+            }
+            let via = match a.get(5) {
+                None => "abs",
+                Some(v) => match v.strip_prefix("via=") {
+                    Some(x) if ["abs", "rel", "dotdot", "link"].contains(&x) => x,
+                    _ => return Some("bad-request".into()),
+                },
+            };
+            let jail = match parse_jail(a[4]) {
+                Some(j) => j,
+                None => return Some("bad-request".into()),
+            };
+            Some(observe_mem(a[0], &arg_bytes(a[1]), &unhx(a[3]), &jail, via))
         }
         _ => None,
     }
@@ -327,7 +408,16 @@ pub struct SrcDir {
 }
 impl SrcDir {
     pub fn new() -> Self {
-        let dir = PathBuf::from(format!("/tmp/rpmverif-c12-src-{}", std::process::id()));
+        Self::new_tagged("")
+    }
+    /// a second scratch directory (the generator's own one stays untouched while a request is evaluated)
+    pub fn new_tagged(tag: &str) -> Self {
+        static N: std::sync::atomic::AtomicU64 = std::sync::atomic::AtomicU64::new(0);
+        let dir = if tag.is_empty() {
+            PathBuf::from(format!("/tmp/rpmverif-c12-src-{}", std::process::id()))
+        } else {
+            PathBuf::from(format!("/tmp/rpmverif-c12-src-{}-{}{}", std::process::id(), tag, N.fetch_add(1, std::sync::atomic::Ordering::Relaxed)))
+        };
         let _ = std::fs::create_dir_all(&dir);
         SrcDir { dir, n: 0 }
     }
@@ -345,6 +435,14 @@ impl Drop for SrcDir {
 }
 
 pub fn build_pkg(src: &mut SrcDir, files: &[BFile], comp: rpm::CompressionType) -> Option<Vec<u8>> {
+    let pkg = build_value(src, files, comp)?;
+    let mut v = Vec::new();
+    pkg.write(&mut v).ok()?;
+    Some(v)
+}
+
+/// the `Package` value `build()` returns
+pub fn build_value(src: &mut SrcDir, files: &[BFile], comp: rpm::CompressionType) -> Option<rpm::Package> {
     let mut bld = rpm::PackageBuilder::new("c12", "1.0.0", "MIT", "noarch", "extraction test")
         .compression(comp)
         .source_date(1_600_000_000u32);
@@ -356,10 +454,12 @@ pub fn build_pkg(src: &mut SrcDir, files: &[BFile], comp: rpm::CompressionType) 
         }
         bld = bld.with_file(&s, o).ok()?;
     }
-    let pkg = bld.build().ok()?;
-    let mut v = Vec::new();
-    pkg.write(&mut v).ok()?;
-    Some(v)
+    bld.build().ok()
+}
+
+/// `extractmem12` request for the same files
+pub fn request_mem(files: &[BFile], comp: &str, pkg: &[u8], archive: Option<&[u8]>, dest: &str, jail: &[(Vec<u8>, JEnt)]) -> String {
+    format!("extractmem12 {} {} {} {} {}", mem_spec(files, comp), hx(pkg), archive.map(hx).unwrap_or_else(|| "-".into()), hx(dest.as_bytes()), jail_spec(jail))
 }
 
 const REG: u16 = 0o100000;
@@ -899,9 +999,14 @@ pub fn gen(ctx: &mut Ctx) {
         files.push(reg("./rel/dot/slash", 0o640, b"dot-slash destination"));
         if let Some(p) = build_pkg(&mut src, &files, rpm::CompressionType::None) {
             ctx.req(&request(&p, None, "/target", &jail));
-            for comp in [rpm::CompressionType::Gzip, rpm::CompressionType::Zstd, rpm::CompressionType::Xz, rpm::CompressionType::Bzip2] {
+            // the un-reparsed value, also with the destination spelled differently (never done for builder-made packages before)
+            ctx.req(&request_mem(&files, "none", &p, None, "/target", &jail));
+            ctx.req(&format!("{} via=rel", request_mem(&files, "none", &p, None, "/target", &jail)));
+            ctx.req(&format!("{} via=dotdot", request(&p, None, "/target", &jail)));
+            for (comp, cname) in [(rpm::CompressionType::Gzip, "gzip"), (rpm::CompressionType::Zstd, "zstd"), (rpm::CompressionType::Xz, "xz"), (rpm::CompressionType::Bzip2, "bzip2")] {
                 if let (Some(pc), Ok(raw)) = (build_pkg(&mut src, &files, comp), rpm::Package::parse(&mut &p[..])) {
                     ctx.req(&request(&pc, Some(&raw.content), "/target", &jail));
+                    ctx.req(&request_mem(&files, cname, &pc, Some(&raw.content), "/target", &jail));
                 }
             }
         }
@@ -913,11 +1018,13 @@ pub fn gen(ctx: &mut Ctx) {
         ] {
             if let Some(p) = build_pkg(&mut src, &files, rpm::CompressionType::None) {
                 ctx.req(&request(&p, None, "/target", &jail));
+                ctx.req(&request_mem(&files, "none", &p, None, "/target", &jail));
             }
         }
         // an empty package (no file tags at all)
         if let Some(p) = build_pkg(&mut src, &[], rpm::CompressionType::None) {
             ctx.req(&request(&p, None, "/target", &jail));
+            ctx.req(&request_mem(&[], "none", &p, None, "/target", &jail));
         }
     }
     // seeded: benign builder-made packages and random hostile ones
@@ -929,9 +1036,14 @@ pub fn gen(ctx: &mut Ctx) {
             if gz {
                 if let (Some(pc), Ok(raw)) = (build_pkg(&mut src, &files, rpm::CompressionType::Gzip), rpm::Package::parse(&mut &p[..])) {
                     ctx.req(&request(&pc, Some(&raw.content), "/target", &jail));
+                    ctx.req(&request_mem(&files, "gzip", &pc, Some(&raw.content), "/target", &jail));
                 }
             } else {
                 ctx.req(&request(&p, None, "/target", &jail));
+                // every third one also as the un-reparsed value
+                if i % 3 == 0 {
+                    ctx.req(&request_mem(&files, "none", &p, None, "/target", &jail));
+                }
             }
         }
     }
